@@ -442,6 +442,52 @@ fn parse_xor_address(value: &[u8], transaction_id: &[u8; 12]) -> Result<Option<S
     }
 }
 
+/// Short-term credential check for a received STUN message (RFC 5389 §10.1.2,
+/// RFC 8445 §7.3): the USERNAME attribute starts with `<local_ufrag>:` and
+/// MESSAGE-INTEGRITY equals the HMAC-SHA1 under `key` of the message up to that
+/// attribute, taken with the header length adjusted to end at MESSAGE-INTEGRITY.
+pub(crate) fn has_valid_short_term_credential(raw: &[u8], local_ufrag: &str, key: &[u8]) -> bool {
+    if raw.len() < 20 {
+        return false;
+    }
+    let mut offset = 20;
+    let mut username_ok = false;
+    while offset + 4 <= raw.len() {
+        let typ = u16::from_be_bytes([raw[offset], raw[offset + 1]]);
+        let len = u16::from_be_bytes([raw[offset + 2], raw[offset + 3]]) as usize;
+        let value_start = offset + 4;
+        let value_end = value_start + len;
+        if value_end > raw.len() {
+            return false;
+        }
+        match typ {
+            0x0006 => {
+                username_ok = std::str::from_utf8(&raw[value_start..value_end])
+                    .ok()
+                    .and_then(|username| username.split_once(':'))
+                    .is_some_and(|(first, _)| first == local_ufrag);
+            }
+            0x0008 => {
+                if len != 20 || !username_ok {
+                    return false;
+                }
+                let mut covered = raw[..offset].to_vec();
+                let adjusted = (offset + 24 - 20) as u16;
+                covered[2..4].copy_from_slice(&adjusted.to_be_bytes());
+                let expected = hmac_sha1(key, &covered);
+                let diff = expected
+                    .iter()
+                    .zip(&raw[value_start..value_end])
+                    .fold(0u8, |acc, (a, b)| acc | (a ^ b));
+                return diff == 0;
+            }
+            _ => {}
+        }
+        offset = value_end + (4 - len % 4) % 4;
+    }
+    false
+}
+
 fn hmac_sha1(key: &[u8], data: &[u8]) -> [u8; 20] {
     let mut mac = <HmacSha1 as hmac::digest::KeyInit>::new_from_slice(key).expect("HMAC key init");
     mac.update(data);
